@@ -632,11 +632,18 @@ def _make_init(cls: t.Type[PaneBase], fields: t.Sequence[Field]):
     setattr(cls, 'from_dict_unchecked', from_dict_unchecked)
 
 
+def _unparametrized(cls: type) -> type:
+    """Return the class `cls` is a parametrization of (at any number of removes), or `cls` itself."""
+    while '__origin__' in cls.__dict__ and PANE_BOUNDVARS in cls.__dict__:
+        cls = cls.__dict__['__origin__']
+    return cls
+
+
 def _make_eq(cls: t.Type[PaneBase], fields: t.Sequence[Field]):
     #eq_fields = list(filter(lambda f: f.eq, fields))
     def __eq__(self: PaneBase, other: t.Any) -> bool:
         # check if classes are the same (modulo type variables)
-        if self.__class__.__dict__.get('__origin__', self.__class__) != other.__class__.__dict__.get('__origin__', other.__class__):
+        if _unparametrized(self.__class__) != _unparametrized(other.__class__):
             return False
         return all(
             getattr(self, field.name) == getattr(other, field.name)
@@ -649,7 +656,8 @@ def _make_eq(cls: t.Type[PaneBase], fields: t.Sequence[Field]):
 def _make_ord(cls: t.Type[PaneBase], fields: t.Sequence[Field]):
     #ord_fields = list(filter(lambda f: f.ord, fields))
     def _pane_ord(self: PaneBase, other: t.Any) -> t.Literal[-1, 0, 1]:
-        if self.__class__ != other.__class__:
+        # (the same classes as for equality: modulo type variables)
+        if _unparametrized(self.__class__) != _unparametrized(other.__class__):
             return NotImplemented  # type: ignore
         for f in fields:
             if not f.compare:
